@@ -380,4 +380,59 @@ def poolDense (m : Method) (l : List (List (Option α))) : List (Option α) :=
 
 end round3
 
+/-! ## 5. (round 4) sessions: several successive analyses of ONE RDMs object -/
+
+section round4
+
+/-- the public functions of the anchored files that take the caller's RDMs object -/
+inductive Fn where
+  | boot | cv | pool | pooling | evalFixed
+deriving Repr, DecidableEq, Inhabited
+
+def Fn.ofString? : String → Option Fn
+  | "boot" => some .boot
+  | "cv" => some .cv
+  | "pool" => some .pool
+  | "pooling" => some .pooling
+  | "evalfixed" => some .evalFixed
+  | _ => none
+
+/-- one call of a session: which function, which method -/
+structure Call where
+  fn : Fn
+  m : Method
+deriving Repr, DecidableEq, Inhabited
+
+/-- number of statements on the path of the call that write *in place* into an array aliasing the
+    caller's data (`rdm_vec -= …`, `rdm_vec[...] = …`, `out=rdm_vec`, …): generated leaves, a syntactic
+    may-alias analysis of the current source of both `pool_rdm`s (with the module-level helpers they hand
+    their data to) and of the two ceilings.  Both ceilings and `eval_fixed` pool the caller's object with
+    `util/inference_util.pool_rdm`; `util/pooling.pool_rdm` is the fitters' copy. -/
+def writesOf : Fn → Nat
+  | .pooling => Rsa.Gen.C07.poolingInputWrites
+  | .pool => Rsa.Gen.C07.poolInputWrites
+  | _ => Rsa.Gen.C07.poolInputWrites + Rsa.Gen.C07.ceilingInputWrites
+
+variable {α : Type} [Add α] [Sub α] [Mul α] [Div α] [Zero α] [One α] [NatCast α]
+  [LT α] [DecidableLT α] [HasSqrt α] [Neg α] [LE α] [DecidableLE α] [Max α] [Min α]
+
+/-- what a call leaves in the caller's object when `w` statements write in place: with none the data
+    are untouched; otherwise every data RDM is overwritten by its normalised version (what an in-place
+    variant of the normalisation steps of `pool_rdm` does to `rdms.dissimilarities`) -/
+def callEffectW (w : Nat) (c : Call) (rows : List (List (Option α))) : List (List (Option α)) :=
+  if w = 0 then rows else rows.map (applyO (normF c.m))
+
+/-- the effect of a call as coded (the write counts are read off the source) -/
+def callEffect (c : Call) (rows : List (List (Option α))) : List (List (Option α)) :=
+  callEffectW (writesOf c.fn) c rows
+
+end round4
+
+/-- a session: the calls are executed one after the other on one object; call `k` sees the state the
+    calls before it left behind.  Returns per call its result and the state after it.  Generic in the
+    call type `κ` (the driver attaches the call's arguments), the state `σ` and the result `ρ`. -/
+def runSessionG {κ σ ρ : Type} (eff : κ → σ → σ) (result : κ → σ → ρ) : List κ → σ → List (ρ × σ)
+  | [], _ => []
+  | c :: cs, s => (result c s, eff c s) :: runSessionG eff result cs (eff c s)
+
 end Rsa.Ceiling
